@@ -103,29 +103,40 @@ pub struct VerifColumn {
     cache: Cache<BlockCacheKey, Block>,
     datatype: DataType,
     char_width: Option<u64>,
+    checksum_type: ChecksumType,
 }
 
 impl VerifColumn {
-    /// `ColumnIndex::from_bytes(index_bytes)` + `Column::new(.., InMemory(data), cache, key)`.
+    /// `ColumnIndex::from_bytes(index_bytes, configured)` +
+    /// `Column::new(.., InMemory(data), cache, key, configured)`; `crc32`: the checksum type the
+    /// storage is configured with (`StorageOptions::checksum_type`), `false` means `None`.
     pub fn open(
         data: Vec<u8>,
         index_bytes: &[u8],
         datatype: DataType,
         char_width: Option<u64>,
+        crc32: bool,
     ) -> StorageResult<Self> {
-        let index = ColumnIndex::from_bytes(index_bytes)?;
+        let checksum_type = if crc32 {
+            ChecksumType::Crc32
+        } else {
+            ChecksumType::None
+        };
+        let index = ColumnIndex::from_bytes(index_bytes, checksum_type)?;
         let cache = Cache::new(2333);
         let column = Column::new(
             index,
             ColumnReadableFile::InMemory(Bytes::from(data)),
             cache.clone(),
             BlockCacheKey::default(),
+            checksum_type,
         );
         Ok(Self {
             column,
             cache,
             datatype,
             char_width,
+            checksum_type,
         })
     }
 
@@ -138,10 +149,12 @@ impl VerifColumn {
                 ColumnReadableFile::InMemory(Bytes::from(data)),
                 self.cache.clone(),
                 BlockCacheKey::default(),
+                self.checksum_type,
             ),
             cache: self.cache.clone(),
             datatype: self.datatype.clone(),
             char_width: self.char_width,
+            checksum_type: self.checksum_type,
         }
     }
 
